@@ -364,12 +364,17 @@ def Expr.ok : Expr → Prop
   | .list v _ inner b a => allOk v ∧ TrivOk inner ∧ TrivOk b ∧ TrivOk a
   | .set v _ _ inner b a => allOk v ∧ TrivOk inner ∧ TrivOk b ∧ TrivOk a
   | .binding n v _ b a => solidT n ∧ v.ok ∧ TrivOk b ∧ TrivOk a
+  | .paren v _ _ _ _ b a => v.ok ∧ TrivOk b ∧ TrivOk a
+  | .app n x _ fa b a => n.ok ∧ x.ok ∧ (∀ c ∈ fa, cOk c) ∧ TrivOk b ∧ TrivOk a
 def allOk : List Expr → Prop
   | [] => True
   | e :: rest => e.ok ∧ allOk rest
 end
 
 def recLex (r : Bool) : List Lex := if r then [.tok ['r', 'e', 'c']] else []
+
+/-- the comments after the function of a call as lexical items -/
+def cmC (cs : List Comment) : List Lex := cs.map fun c => .cmt (c.token 0)
 
 mutual
 /-- tokens and comments of the rendering of an expression, in order -/
@@ -383,6 +388,10 @@ def Expr.lexOut : Expr → Bool → List Lex
       (if na then [] else cm a)
   | .binding n v _ b a, na =>
     cm b ++ [.tok n, .tok ['=']] ++ v.lexOut true ++ [.tok [';']] ++ cm (v.after ++ (if na then [] else a))
+  | .paren v _ _ _ _ b a, na =>
+    cm b ++ [.tok ['(']] ++ v.lexOut false ++ [.tok [')']] ++ (if na then [] else cm a)
+  | .app n x _ fa b a, na =>
+    cm b ++ n.lexOut false ++ cmC fa ++ x.lexOut false ++ (if na then [] else cm a)
 def lexOutAll : List Expr → List Lex
   | [] => []
   | e :: rest => e.lexOut false ++ lexOutAll rest
@@ -477,6 +486,23 @@ theorem recP_lex (r : Bool) : lexOf (recP r) = recLex r ∧ Solid (recP r) := by
   · exact ⟨rfl, solid_nil⟩
   · refine ⟨by simp [recP, recLex], ?_⟩
     exact solid_cons ⟨by simp, by simp [endsWithNL]⟩ (solid_cons (solid_ws _) solid_nil)
+
+theorem fnAfterP_lex : ∀ (cs : List Comment) (acc : List FP) (i : Nat), (∀ c ∈ cs, cOk c) → Solid acc →
+    lexOf (fnAfterP acc cs i) = lexOf acc ++ cmC cs ∧ Solid (fnAfterP acc cs i)
+  | [], acc, i, _, ha => by simp [fnAfterP, cmC, ha]
+  | c :: rest, acc, i, hc, ha => by
+    have hc0 := hc c (List.mem_cons_self ..)
+    have hr : ∀ c' ∈ rest, cOk c' := fun c' h => hc c' (List.mem_cons_of_mem _ h)
+    simp only [fnAfterP]
+    split
+    · have := fnAfterP_lex rest (acc ++ (if (concat acc).getLast? == some ' ' then [] else [FP.ws [' ']]) ++ cmtP c 0) i hr
+        (solid_append (solid_append ha (solid_ite _ solid_nil (solid_cons (solid_ws _) solid_nil))) (cmtP_solid hc0 0))
+      refine ⟨?_, this.2⟩
+      rw [this.1]; simp [lexOf_ite, cmtP_lex hc0, cmC]
+    · have := fnAfterP_lex rest (acc ++ (if endsWithNL (concat acc) = true then [] else [FP.ws ['\n']]) ++ cmtP c i) i hr
+        (solid_append (solid_append ha (solid_ite _ solid_nil (solid_cons (solid_ws _) solid_nil))) (cmtP_solid hc0 i))
+      refine ⟨?_, this.2⟩
+      rw [this.1]; simp [lexOf_ite, cmtP_lex hc0, cmC]
 
 mutual
 theorem rebuildAP_lex : (e : Expr) → e.ok → ∀ (na : Bool) (i : Nat) (b : Bool),
@@ -577,6 +603,8 @@ theorem rebuildAP_lex : (e : Expr) → e.ok → ∀ (na : Bool) (i : Nat) (b : B
       | list v m inn b a => exact hv.2.2.2
       | set v m r inn b a => exact hv.2.2.2
       | binding n v g b a => exact hv.2.2.2
+      | paren v lg tg lb tb b a => exact hv.2.2
+      | app n x g fa b a => exact hv.2.2.2.2
     have hbt := bindingTailP_lex (trivOk_append hva (ite_nil_ok na ha)) i
     have hi := indentP_lex i b
     simp only [Expr.rebuildAP, Expr.lexOut]
@@ -597,6 +625,63 @@ theorem rebuildAP_lex : (e : Expr) → e.ok → ∀ (na : Bool) (i : Nat) (b : B
     · exact solid_append (solid_append (solid_append (solid_append (solid_append (fmtP_solid hb i) hi.2)
         (solid_cons hn (solid_cons (solid_ws _) (solid_tokc '=' (by decide) (solid_cons (solid_ws _) solid_nil)))))
         hrs.2) (solid_tok (solidT_lit ';' (by decide)))) hbt.2
+  | .paren value lg tg lb tb before after, hok, na, i, b => by
+    obtain ⟨hv, hb, ha⟩ := hok
+    have ihv := rebuildAP_lex value hv false
+    simp only [Expr.rebuildAP, Expr.lexOut]
+    generalize (Layout.fromGap lg).onNewline = on1
+    generalize (Layout.fromGap tg).onNewline = on2
+    generalize (Layout.fromGap lg).indent.getD (i + 2) = vi
+    have hinner : lexOf (if on1 = true then FP.ws (nlSep lb) :: value.rebuildAP false vi false
+          else value.rebuildAP false i true) = value.lexOut false ∧
+        Solid (if on1 = true then FP.ws (nlSep lb) :: value.rebuildAP false vi false
+          else value.rebuildAP false i true) := by
+      split
+      · exact ⟨by simp [(ihv _ _).1], solid_wsc _ (ihv _ _).2⟩
+      · exact ihv _ _
+    have hinner2 : lexOf (if on2 = true then (if on1 = true then FP.ws (nlSep lb) :: value.rebuildAP false vi false
+          else value.rebuildAP false i true) ++ [FP.ws (nlSep tb ++ spaces i)]
+          else (if on1 = true then FP.ws (nlSep lb) :: value.rebuildAP false vi false
+          else value.rebuildAP false i true)) = value.lexOut false ∧
+        Solid (if on2 = true then (if on1 = true then FP.ws (nlSep lb) :: value.rebuildAP false vi false
+          else value.rebuildAP false i true) ++ [FP.ws (nlSep tb ++ spaces i)]
+          else (if on1 = true then FP.ws (nlSep lb) :: value.rebuildAP false vi false
+          else value.rebuildAP false i true)) := by
+      split
+      · exact ⟨by simp [hinner.1], solid_append hinner.2 (solid_wsc _ solid_nil)⟩
+      · exact hinner
+    have hat := addTriviaP_lex (core := FP.tok ['('] :: (if on2 = true then (if on1 = true then
+          FP.ws (nlSep lb) :: value.rebuildAP false vi false else value.rebuildAP false i true) ++
+          [FP.ws (nlSep tb ++ spaces i)]
+          else (if on1 = true then FP.ws (nlSep lb) :: value.rebuildAP false vi false
+          else value.rebuildAP false i true)) ++ [FP.tok [')']]) hb (ite_nil_ok na ha)
+      (solid_tokc '(' (by decide) (solid_append hinner2.2 (solid_tok (solidT_lit ')' (by decide))))) i b
+    refine ⟨?_, hat.2⟩
+    rw [hat.1]; simp [hinner2.1, cm_ite_nil]
+  | .app name arg g fa before after, hok, na, i, b => by
+    obtain ⟨hn, hx, hfa, hb, ha⟩ := hok
+    have ihn := rebuildAP_lex name hn false i true
+    have ihx := rebuildAP_lex arg hx false
+    simp only [Expr.rebuildAP, Expr.lexOut]
+    generalize (Layout.fromGap g).onNewline = on
+    generalize (if on = true then (Layout.fromGap g).indent.getD (i + 2) else i) = ai
+    generalize (if (Layout.fromGap g).blankLine = true then ['\n', '\n'] else if on = true then ['\n'] else [' ']) = sep
+    have hf := fnAfterP_lex fa _ i hfa ihn.2
+    have hargs : lexOf (if (on && startsNonSpace (concat (arg.rebuildAP false ai (!on)))) = true then
+          FP.ws (spaces ai) :: arg.rebuildAP false ai (!on) else arg.rebuildAP false ai (!on)) = arg.lexOut false ∧
+        Solid (if (on && startsNonSpace (concat (arg.rebuildAP false ai (!on)))) = true then
+          FP.ws (spaces ai) :: arg.rebuildAP false ai (!on) else arg.rebuildAP false ai (!on)) := by
+      split
+      · exact ⟨by simp [(ihx _ _).1], solid_wsc _ (ihx _ _).2⟩
+      · exact ihx _ _
+    revert hargs
+    generalize (if (on && startsNonSpace (concat (arg.rebuildAP false ai (!on)))) = true then
+          FP.ws (spaces ai) :: arg.rebuildAP false ai (!on) else arg.rebuildAP false ai (!on)) = argsP
+    intro hargs
+    have hat := addTriviaP_lex (core := fnAfterP (name.rebuildAP false i true) fa i ++ FP.ws sep :: argsP)
+      hb (ite_nil_ok na ha) (solid_append hf.2 (solid_wsc _ hargs.2)) i b
+    refine ⟨?_, hat.2⟩
+    rw [hat.1]; simp [hf.1, ihn.1, hargs.1, cm_ite_nil]
 theorem rebuildAllP_lex : (es : List Expr) → allOk es → ∀ (i : Nat) (b : Bool),
     ((rebuildAllP es i b).map lexOf).flatten = lexOutAll es ∧ ∀ x ∈ rebuildAllP es i b, Solid x
   | [], _, i, b => ⟨rfl, by intro x hx; cases hx⟩
@@ -615,6 +700,8 @@ theorem previewP_lex : (e : Expr) → e.ok → ∀ (i : Nat) (p : List FP), e.pr
   | .leaf .., _, i, p, h => by simp [Expr.previewP] at h
   | .set .., _, i, p, h => by simp [Expr.previewP] at h
   | .binding .., _, i, p, h => by simp [Expr.previewP] at h
+  | .paren .., _, i, p, h => by simp [Expr.previewP] at h
+  | .app .., _, i, p, h => by simp [Expr.previewP] at h
   | .list value ml inner before after, hok, i, p, h => by
     obtain ⟨hv, hin, hb, ha⟩ := hok
     have ih := fun i b => rebuildAllP_lex value hv i b
